@@ -356,8 +356,14 @@ pub fn run(ctx: &Ctx) -> Result<(), String> {
         Tier::Thorough => full_product(),
     };
     // heavy points (16 workers with per-client stats) limit parallelism by memory, not CPU
+    let dead_starts = AtomicU64::new(0);
     par_for(points.len(), 1, |k, _| {
         let p = &points[k];
+        // a tree on which a dozen configurations already failed to serve is broken; the remaining
+        // points would add the same finding at the price of their timeouts
+        if dead_starts.load(Relaxed) >= 12 {
+            return;
+        }
         let port = free_port();
         let hport = if p.health { Some(free_port()) } else { None };
         let w = written_for(p, port, hport, &pdir_s);
@@ -366,6 +372,9 @@ pub fn run(ctx: &Ctx) -> Result<(), String> {
             Err(e) => *failed.lock().unwrap() = Some(e),
             Ok(o) => {
                 evals.fetch_add(1, Relaxed);
+                if o.exited.is_some() || o.serving_keys < p.workers {
+                    dead_starts.fetch_add(1, Relaxed);
+                }
                 let class = format!("{}{}", if p.health { "health_check_port set" } else { "no health check" }, if p.workers >= 2 { " && num_workers>=2" } else { " && num_workers=1" });
                 let cls = format!("{}:{}", class, if o.exited.is_some() { "exited".to_string() } else { format!("{}of{}", o.serving_keys.min(p.workers), if o.serving_keys >= p.workers { "N" } else { "fewer" }) });
                 *classes.lock().unwrap().entry(cls).or_insert(0) += 1;
@@ -496,6 +505,7 @@ pub fn run(ctx: &Ctx) -> Result<(), String> {
     ctx.cov("evaluations", json!(evals.load(Relaxed) + hist_n.load(Relaxed) + sched.executions));
     ctx.cov("distinct_nontrivial", json!(evals.load(Relaxed) + hist_n.load(Relaxed) + sched.executions));
     ctx.cov("configuration_points", json!(points.len()));
+    ctx.cov("configuration_points_started", json!(evals.load(Relaxed)));
     ctx.cov("health_histories", json!(hist_n.load(Relaxed)));
     ctx.cov("startup_schedules", sched.to_json());
     ctx.cov("outcome_classes", json!(*classes.lock().unwrap()));
